@@ -5,6 +5,7 @@ import VlsModel.Gen.FnPersistModel
 import VlsModel.Gen.FnKvvKeys
 import VlsModel.Gen.FnKvvPass
 import VlsModel.Gen.FnNodePrune
+import VlsModel.Gen.FnNodeForget
 import VlsModel.Model.Backup
 import VlsModel.Lemmas.FnGen
 /-
@@ -700,4 +701,62 @@ example :
   intro node; rfl
 
 end Prune
+/-! ### `Node::forget_channel` translated from the source (`Gen.FnNodeForget`, `translate/fn_targets/NodeForget.b5.json`) -/
+section Forget
+open VlsModel.Gen.FnNodeForget
+
+/-- **C11_fn_forget_channel**: whenever `Node::forget_channel` (as it is in the source now) returns `Ok`, then for the slot the
+    channel map holds under the given id: a raised high-water mark was written with the node state that carries it
+    (acknowledged, *before* anything else is written); a stub's store entry was deleted under the given id (acknowledged);
+    a ready channel's monitor accepted the forget and the tracker entry (which carries the forget flag) was written
+    (acknowledged).  An id the map does not hold writes nothing.  For all persisters, trackers and node states. -/
+theorem C11_fn_forget_channel {ChannelId PublicKey ChainTracker Persist : Type} [DecidableEq ChannelId]
+    (chs : Node ChannelId PublicKey ChainTracker Persist → List (ChannelId × ChannelSlot))
+    (fg : Channel → VlsModel.Rs.M Unit) (st : Node ChannelId PublicKey ChainTracker Persist → NodeState)
+    (oid : ChannelId → Nat) (updn : Persist → PublicKey → NodeState → Option Unit)
+    (del : Persist → PublicKey → ChannelId → Option Unit)
+    (trk : Node ChannelId PublicKey ChainTracker Persist → ChainTracker)
+    (updt : Persist → PublicKey → ChainTracker → Option Unit)
+    (self : Node ChannelId PublicKey ChainTracker Persist) (id : ChannelId)
+    (h : Node.forget_channel chs fg st oid updn del trk updt self id = .ok ()) :
+    ∀ slot, VlsModel.Rs.omapGet (chs self) id = some slot →
+      (oid id > (st self).dbid_high_water_mark →
+         updn self.persister self.node_id { st self with dbid_high_water_mark := oid id } = some ()) ∧
+      (∀ s, slot = .Stub s → del self.persister self.node_id id = some ()) ∧
+      (∀ ch, slot = .Ready ch → fg ch = .ok () ∧ updt self.persister self.node_id (trk self) = some ()) := by
+  intro slot hg
+  unfold Node.forget_channel at h
+  simp only [hg, Node.get_id, bind, Except.bind, pure, Except.pure] at h
+  cases slot with
+  | Stub s =>
+    by_cases hc : oid id > (st self).dbid_high_water_mark
+    · cases hu : updn self.persister self.node_id { st self with dbid_high_water_mark := oid id } <;>
+      cases hd : del self.persister self.node_id id <;>
+      (try simp_all [VlsModel.Rs.unwrap, VlsModel.Rs.panic, pure, Except.pure]) <;> (try (intro hh; omega))
+    · cases hd : del self.persister self.node_id id <;>
+      (try simp_all [VlsModel.Rs.unwrap, VlsModel.Rs.panic, pure, Except.pure]) <;> (try (intro hh; omega))
+  | Ready ch =>
+    cases hf : fg ch with
+    | error e => simp_all
+    | ok u =>
+      by_cases hc : oid id > (st self).dbid_high_water_mark
+      · cases hu : updn self.persister self.node_id { st self with dbid_high_water_mark := oid id } <;>
+        cases ht : updt self.persister self.node_id (trk self) <;>
+        (try simp_all [VlsModel.Rs.unwrap, VlsModel.Rs.panic, pure, Except.pure]) <;> (try (intro hh; omega))
+      · cases ht : updt self.persister self.node_id (trk self) <;>
+        (try simp_all [VlsModel.Rs.unwrap, VlsModel.Rs.panic, pure, Except.pure]) <;> (try (intro hh; omega))
+
+/-- non-vacuity: a stub under id 5 with the mark at 3 (the mark is raised and written, the stub deleted), a ready channel
+    under id 2 (tracker written), and a node-state write that fails (the request aborts, nothing is acknowledged). -/
+example :
+    let node : Node Nat Nat Nat Nat := { channels := [(5, .Stub ⟨⟩), (2, .Ready ⟨⟩)], persister := 0, tracker := 4, state := ⟨3⟩, node_id := 9 }
+    Node.forget_channel (fun n => n.channels) (fun _ => .ok ()) (fun n => n.state) id (fun _ _ _ => some ())
+        (fun _ _ _ => some ()) (fun n => n.tracker) (fun _ _ _ => some ()) node 5 = .ok () ∧
+    Node.forget_channel (fun n => n.channels) (fun _ => .ok ()) (fun n => n.state) id (fun _ _ _ => some ())
+        (fun _ _ _ => some ()) (fun n => n.tracker) (fun _ _ _ => some ()) node 2 = .ok () ∧
+    Node.forget_channel (fun n => n.channels) (fun _ => .ok ()) (fun n => n.state) id (fun _ _ _ => none)
+        (fun _ _ _ => some ()) (fun n => n.tracker) (fun _ _ _ => some ()) node 5 = .error .panic := by
+  intro node; exact ⟨rfl, rfl, rfl⟩
+
+end Forget
 end VlsModel.Props.C11Fn
